@@ -23,13 +23,55 @@ use val::Val;
 fn attr_of(v: &Val) -> packet::Attribute {
     let code = v.at(0).u8();
     let flags = v.at(1).u8();
-    match v.at(2).int() {
+    let kind = v.at(2).int();
+    if kind == 2 {
+        return packet::Attribute::new_opaque(code, flags, v.at(3).bytes());
+    }
+    if packet::Attribute::canonical_flags(code) != Some(flags) {
+        // recognised attribute with non-canonical flag bits (Partial, Extended
+        // Length, the unused low bits): only the UPDATE decoder produces these
+        return wire_attr(code, flags, kind, v.at(3));
+    }
+    match kind {
         0 => packet::Attribute::new_with_value(code, v.at(3).u32())
             .expect("verif: generator uses known codes for Val attributes"),
         1 => packet::Attribute::new_with_bin(code, v.at(3).bytes())
             .expect("verif: generator uses known codes for Bin attributes"),
-        2 => packet::Attribute::new_opaque(code, flags, v.at(3).bytes()),
         k => panic!("verif: bad attribute kind {}", k),
+    }
+}
+
+// one attribute through the real decoder: an UPDATE without NLRI that carries it
+fn wire_attr(code: u8, flags: u8, kind: i128, payload: &Val) -> packet::Attribute {
+    let value: Vec<u8> = if kind == 0 {
+        if code == packet::Attribute::ORIGIN {
+            vec![payload.u8()]
+        } else {
+            payload.u32().to_be_bytes().to_vec()
+        }
+    } else {
+        payload.bytes()
+    };
+    let mut a = vec![flags, code];
+    if flags & 0x10 != 0 {
+        a.extend_from_slice(&(value.len() as u16).to_be_bytes());
+    } else {
+        a.push(value.len() as u8);
+    }
+    a.extend_from_slice(&value);
+    let total = 19 + 2 + 2 + a.len();
+    let mut m = vec![0xffu8; 16];
+    m.extend_from_slice(&(total as u16).to_be_bytes());
+    m.push(2);
+    m.extend_from_slice(&[0, 0]);
+    m.extend_from_slice(&(a.len() as u16).to_be_bytes());
+    m.extend_from_slice(&a);
+    let mut codec = bgp::PeerCodec::new();
+    match codec.parse_message(&m) {
+        Ok(bgp::ParsedMessage::Update(bgp::ParsedUpdate::Routes { attrs, .. })) if attrs.len() == 1 => {
+            attrs.into_iter().next().unwrap()
+        }
+        _ => panic!("verif: the decoder did not keep attribute {} flags {:#x}", code, flags),
     }
 }
 
